@@ -629,6 +629,11 @@ func (l *Loader) AddCircuitIDSubscriber(circuitID []byte, assignment *PoolAssign
 	if l.circuitIDSubscribers == nil {
 		return fmt.Errorf("circuit_id_subscribers map not loaded")
 	}
+	if len(circuitID) > CircuitIDKeyLen {
+		// The kernel program never matches circuit-ids longer than the key
+		// (extract_circuit_id_fixed); truncating here would alias another id.
+		return fmt.Errorf("circuit-id of %d bytes does not fit the %d-byte key", len(circuitID), CircuitIDKeyLen)
+	}
 	key := MakeCircuitIDKey(circuitID)
 	return l.circuitIDSubscribers.Put(&key, assignment)
 }
@@ -638,6 +643,11 @@ func (l *Loader) RemoveCircuitIDSubscriber(circuitID []byte) error {
 	if l.circuitIDSubscribers == nil {
 		return fmt.Errorf("circuit_id_subscribers map not loaded")
 	}
+	if len(circuitID) > CircuitIDKeyLen {
+		// The kernel program never matches circuit-ids longer than the key
+		// (extract_circuit_id_fixed); truncating here would alias another id.
+		return fmt.Errorf("circuit-id of %d bytes does not fit the %d-byte key", len(circuitID), CircuitIDKeyLen)
+	}
 	key := MakeCircuitIDKey(circuitID)
 	return l.circuitIDSubscribers.Delete(&key)
 }
@@ -646,6 +656,11 @@ func (l *Loader) RemoveCircuitIDSubscriber(circuitID []byte) error {
 func (l *Loader) GetCircuitIDSubscriber(circuitID []byte) (*PoolAssignment, error) {
 	if l.circuitIDSubscribers == nil {
 		return nil, fmt.Errorf("circuit_id_subscribers map not loaded")
+	}
+	if len(circuitID) > CircuitIDKeyLen {
+		// The kernel program never matches circuit-ids longer than the key
+		// (extract_circuit_id_fixed); truncating here would alias another id.
+		return nil, fmt.Errorf("circuit-id of %d bytes does not fit the %d-byte key", len(circuitID), CircuitIDKeyLen)
 	}
 	key := MakeCircuitIDKey(circuitID)
 	var assignment PoolAssignment
